@@ -222,7 +222,8 @@ def representatives():
             if lit is not None:
                 syms.append(lit)
     words = [b'a', b'x1', b'_', b'endx', b'\x80', b'e', b'f', b'and', b'not', b'end', b'nil', b'function', b'?']
-    nums = [b'0', b'1', b'12', b'3.', b'.5', b'1.5', b'1e3', b'1e-2', b'0x1', b'0xe', b'0x1.8', b'0b1', b'0X1F']
+    nums = [b'0', b'1', b'12', b'3.', b'.5', b'1.5', b'1e3', b'1e-2', b'0x1', b'0xe', b'0x1.8', b'0b1', b'0X1F',
+            b'1.5e10', b'2.5e0', b'10.0', b'100']
     strs = [b'"s"', b"'s'", b'""', b'[[k]]', b'[=[k]=]', b'[[]]', b'"\\0"', b'"1"']
     labels = [b'::l::']
     return syms + words + nums + strs + labels
